@@ -37,6 +37,9 @@ theorem Agent.sized_update {a : Agent} (h : a.Sized) (g : Vec) : (a.update g).Si
   · exact ⟨h.1, smUpdate_wellShaped g h.2⟩
   · exact h
 
+theorem Agent.sized_setLamb {a : Agent} (h : a.Sized) (q : Rat) : (a.setLamb q).Sized := by
+  unfold Agent.setLamb; split <;> exact h
+
 theorem Agent.sized_step {a : Agent} (h : a.Sized) (op : Op) : (a.step op).Sized := by
   cases op with
   | update g => exact Agent.sized_update h g
@@ -44,6 +47,9 @@ theorem Agent.sized_step {a : Agent} (h : a.Sized) (op : Op) : (a.step op).Sized
   | mutate n' => exact Agent.sized_initParams _
   | clone => rw [Agent.step, Agent.clone_eq]; exact h
   | reload => rw [Agent.step, Agent.reload_eq]; exact h
+  | init => exact Agent.sized_initParams _
+  | setLamb q => exact Agent.sized_setLamb h q
+  | evaluate => exact h
 
 theorem Agent.sized_run {a : Agent} (h : a.Sized) (ops : List Op) : (a.run ops).Sized := by
   induction ops generalizing a with
@@ -94,14 +100,22 @@ theorem Agent.good_update {a : Agent} (h : a.Good) (g : Vec) : (a.update g).Good
       rcases hx with hx | rfl
       · exact h.hist_len x hx
       · exact hg
-    · show WellShaped a.numel (Bandit.gram (z0 a.sem a.lamb a.numel) (a.hist ++ [g]))
+    · show WellShaped a.numel (Bandit.gram (z0 a.sem a.lamb0 a.numel) (a.hist ++ [g]))
       rw [gram_append]
       exact addOuter_wellShaped h.gram_shape hg
-    · show BanditM.IsInvPD (toMatrix a.numel (Bandit.gram (z0 a.sem a.lamb a.numel) (a.hist ++ [g])))
+    · show BanditM.IsInvPD (toMatrix a.numel (Bandit.gram (z0 a.sem a.lamb0 a.numel) (a.hist ++ [g])))
         (toMatrix a.numel (smUpdate a.sigmaInv g))
-      rw [gram_append, show Bandit.gram (z0 a.sem a.lamb a.numel) a.hist = a.gram from rfl,
+      rw [gram_append, show Bandit.gram (z0 a.sem a.lamb0 a.numel) a.hist = a.gram from rfl,
         toMatrix_addOuter h.gram_shape hg, toMatrix_smUpdate h.sized.2 hg]
       exact h.inv.step _
+  · exact h
+
+/-- changing `lamb` leaves the matrix, its Gram matrix (built from `lamb0`) and all sizes alone -/
+theorem Agent.good_setLamb {a : Agent} (h : a.Good) (q : Rat) : (a.setLamb q).Good := by
+  unfold Agent.setLamb
+  split
+  · rename_i hq
+    exact ⟨hq, h.sized, h.hist_len, h.gram_shape, h.inv⟩
   · exact h
 
 theorem Agent.good_step {a : Agent} (h : a.Good) (op : Op) : (a.step op).Good := by
@@ -111,6 +125,9 @@ theorem Agent.good_step {a : Agent} (h : a.Good) (op : Op) : (a.step op).Good :=
   | mutate n' => exact Agent.good_initParams _ h.lamb_pos
   | clone => rw [Agent.step, Agent.clone_eq]; exact h
   | reload => rw [Agent.step, Agent.reload_eq]; exact h
+  | init => exact Agent.good_initParams _ h.lamb_pos
+  | setLamb q => exact Agent.good_setLamb h q
+  | evaluate => exact h
 
 theorem Agent.good_run {a : Agent} (h : a.Good) (ops : List Op) : (a.run ops).Good := by
   induction ops generalizing a with
